@@ -111,12 +111,14 @@ impl StdRoutingLogic {
         ignore_macs: bool,
     ) -> Result<IngressNextAction, StandardRoutingError> {
         // Advance the path
+        let arrival_hop_index = path.curr_hop_field_idx() as usize;
         let advance_result = path.advance_ingress_with_validator(
             StandardValidator {
                 ingress: true,
                 now,
                 interface_link_type_lookup,
                 current_interface_id: ingress_interface_id,
+                arrival_hop_index,
                 forwarding_key,
                 ignore_macs,
             },
@@ -181,9 +183,11 @@ impl StdRoutingLogic {
         ignore_macs: bool,
     ) -> Result<AsRoutingAction, StandardRoutingError> {
         // Advance the path
+        let arrival_hop_index = path.curr_hop_field_idx() as usize;
         let advance_result = path.advance_egress_with_validator(StandardValidator {
             ingress: false,
             current_interface_id: egress_if_id,
+            arrival_hop_index,
             now,
             interface_link_type_lookup,
             forwarding_key,
@@ -480,6 +484,8 @@ struct StandardValidator<'a, Lookup: Fn(u16) -> Option<AsRoutingInterfaceState>>
     now: ScionNetworkTime,
     interface_link_type_lookup: Lookup,
     current_interface_id: u16,
+    /// Index of the hop field the packet was at when it arrived at this AS.
+    arrival_hop_index: usize,
     forwarding_key: &'a ForwardingKey,
     ignore_macs: bool,
 }
@@ -505,7 +511,12 @@ impl<'a, Lookup: Fn(u16) -> Option<AsRoutingInterfaceState>> AdvanceValidator
         match self.ingress {
             // Checks done on ingress
             true => {
-                if self.current_interface_id != 0
+                // Only the hop field the packet arrived at was entered through its ingress
+                // interface. The first hop field of the next segment, validated at a segment
+                // change, names the interface towards the AS's parent or core neighbor, which the
+                // packet did not use.
+                if hop_index == self.arrival_hop_index
+                    && self.current_interface_id != 0
                     && ingress_interface != 0
                     && ingress_interface != self.current_interface_id
                 {
